@@ -31,9 +31,10 @@
 // Event schema written by Run (see Pipeline_Trace.tla), byte strings are JSON arrays of integers:
 //
 //	{"event":"reset","t":id,"mode":"files|fifo|reader|hook","batch":B,"workers":W,"readers":R,
-//	 "buf":C,"tf":0|1,"nign":n,"log":"full|sum"}
+//	 "buf":C,"tf":0|1,"nign":n,"log":"full|sum","gunzip":0|1,"family":tag}
 //	{"event":"cls","cid":c,"m":0|1,"ig":[[..]..],"key":[..]}      reference facts of one content
-//	{"event":"file","f":i,"lines":[cid..]}                         true content of input i
+//	{"event":"file","f":i,"lines":[cid..],"kind":"plain|gz|fifo|stream","size":bytes}
+//	                                                               true (decoded) content of input i and how it is opened
 //	{"event":"batch","f":i,"start":n,"lines":[cid..]}              a batch passed the forwarder
 //	{"event":"proc","w":k,"cid":c,"m":0|1}                         worker k ran the matcher on a line
 //	{"event":"ign","w":k,"cid":c,"vals":[[..]..],"res":0|1,"key":[..],"full":0|1}  ignore set consulted
